@@ -92,6 +92,18 @@ func checkManifestUniqueEntries(r *Run, p *packages.Package) {
 				}
 				switch t := y.(type) {
 				case *ast.IfStmt:
+					// `if seen[key] { return … }` over a map of bool
+					if ix, ok := ast.Unparen(t.Cond).(*ast.IndexExpr); ok && mentions(ix.Index) {
+						if _, isMap := info.TypeOf(ix.X).Underlying().(*types.Map); isMap {
+							for _, b := range t.Body.List {
+								if _, isRet := b.(*ast.ReturnStmt); isRet {
+									if id, ok := ast.Unparen(ix.X).(*ast.Ident); ok {
+										reads[info.Uses[id]] = true
+									}
+								}
+							}
+						}
+					}
 					if as, ok := t.Init.(*ast.AssignStmt); ok && len(as.Rhs) == 1 {
 						if ix, ok := ast.Unparen(as.Rhs[0]).(*ast.IndexExpr); ok && mentions(ix.Index) {
 							if _, isMap := info.TypeOf(ix.X).Underlying().(*types.Map); isMap {
